@@ -524,6 +524,40 @@ fn check_meta(ext: &str, what: &str, m: &Meta, ctx: &mut Ctx) {
         ctx.violation(format!("diff:sauce:{ext}:{name}:{}", if name == field || field == "flags" || field == "width" { "direct" } else { field }), json!({"format": ext, "varied": what, "meta": m.json(), "difference": d}));
         return;
     }
+    // second generation: the loaded file (record attached by the loader) is saved and loaded again
+    if !m.stale_record {
+        if let Ok(bytes2) = save(&got, ext, true) {
+            ctx.count("transitions", 2);
+            ctx.count("second_generation", 1);
+            match load(ext, &bytes2) {
+                Ok(again) => {
+                    let same = match (got.get_sauce(), again.get_sauce()) {
+                        (Some(a), Some(b)) => {
+                            a.title.to_string() == b.title.to_string()
+                                && a.author.to_string() == b.author.to_string()
+                                && a.group.to_string() == b.group.to_string()
+                                && a.comments.iter().map(|c| c.to_string()).collect::<Vec<_>>() == b.comments.iter().map(|c| c.to_string()).collect::<Vec<_>>()
+                                && a.buffer_size.width == b.buffer_size.width
+                                && a.use_ice == b.use_ice
+                                && a.use_letter_spacing == b.use_letter_spacing
+                                && a.use_aspect_ratio == b.use_aspect_ratio
+                                && (m.font.is_none() || !matches!(ext, "ans" | "asc" | "bin") || a.font_opt == b.font_opt) // formats that embed a font name it themselves on load
+                        }
+                        _ => false,
+                    };
+                    if !same || again.get_width() != got.get_width() {
+                        ctx.violation(format!("diff:sauce:{ext}:second-generation"), json!({"format": ext, "varied": what, "meta": m.json()}));
+                        return;
+                    }
+                }
+                Err(e) => {
+                    let sig = if e.starts_with("PANIC") { format!("{}:second-generation:{ext}", e.replace("PANIC ", "")) } else { format!("diff:sauce:{ext}:second-generation-refused") };
+                    ctx.violation(sig, json!({"format": ext, "varied": what, "meta": m.json(), "error": e}));
+                    return;
+                }
+            }
+        }
+    }
     // the picture: equal to the same document saved without SAUCE, when the record only restates the loader defaults
     // (the defaults are read off the content loaded alone: e.g. 160 columns for .bin, ice colours for .idf)
     if m.font.is_none() && ext != "icy" {
